@@ -37,13 +37,13 @@ impl Scenario for C07 {
     fn runs(&self, tier: Tier) -> u64 {
         match tier {
             Tier::Quick => 350_000,
-            Tier::Thorough => 40_000_000,
+            Tier::Thorough => 24_000_000,
         }
     }
     fn log_runs(&self, tier: Tier) -> u64 {
         match tier {
             Tier::Quick => 50_000,
-            Tier::Thorough => 2_000_000,
+            Tier::Thorough => 1_200_000,
         }
     }
     fn one_run(&self, seed: u64, run: u64, tier: Tier, st: &mut Stats) -> (RunResult, Option<J>) {
@@ -65,6 +65,37 @@ impl Scenario for C07 {
         let mut j = c.sample_json();
         j["results"] = json!(ex.results.iter().map(|r| r.short()).collect::<Vec<_>>());
         j
+    }
+    fn enumerate(&self, tier: Tier, seed: u64, st: &mut Stats) -> Vec<(Violation, J)> {
+        // streams longer than the 10 MiB default buffer through DltMessageReader::new
+        let n = match tier {
+            Tier::Quick => 2,
+            Tier::Thorough => 64,
+        };
+        let (s2, fails) = run_batch(n, |i, st| {
+            let case = crate::scen_read::big_stream_case("C07", seed, i, false);
+            let ex = crate::scen_read::execute(&case, st);
+            st.inc("big_streams_default_ctor");
+            st.add("big_stream_bytes", case.medium.len() as u64);
+            let k = crate::rng::splitmix64(crate::rng::Fnv::of(&case.medium[..4096.min(case.medium.len())]) ^ i);
+            st.distinct.insert(k);
+            st.nontrivial.insert(k);
+            RunResult { violations: ex.violations, hist: ex.hist }
+        });
+        st.merge(s2);
+        let mut out = vec![];
+        for (i, viols) in fails.into_iter().take(2) {
+            let case = crate::scen_read::big_stream_case("C07", seed, i, false);
+            let mut tmp = Stats::default();
+            let ex = crate::scen_read::execute(&case, &mut tmp);
+            let mut c = case.clone();
+            c.script = ex.taken.clone();
+            c.gen = None;
+            for v in viols {
+                out.push((v, c.to_json()));
+            }
+        }
+        out
     }
     fn evidence(&self, tier: Tier, seed: u64) -> Evidence {
         let mut e = ev_base(
@@ -91,6 +122,7 @@ impl Scenario for C07 {
             "medium_soup",
             "medium_clean",
             "reader_default_ctor",
+            "big_streams_default_ctor",
         ];
         e.crate_probes = vec!["term_clean_eos", "term_partial_header", "term_short_record", "term_shortlen", "results_parse_err"];
         e.step_keys = vec!["source_calls", "reader_calls"];
@@ -107,13 +139,13 @@ impl Scenario for C08 {
     fn runs(&self, tier: Tier) -> u64 {
         match tier {
             Tier::Quick => 150_000,
-            Tier::Thorough => 20_000_000,
+            Tier::Thorough => 5_000_000,
         }
     }
     fn log_runs(&self, tier: Tier) -> u64 {
         match tier {
             Tier::Quick => 15_000,
-            Tier::Thorough => 1_000_000,
+            Tier::Thorough => 300_000,
         }
     }
     fn one_run(&self, seed: u64, run: u64, tier: Tier, st: &mut Stats) -> (RunResult, Option<J>) {
@@ -135,6 +167,34 @@ impl Scenario for C08 {
         j["executor_choices"] = json!(c.exec.len());
         j
     }
+    fn enumerate(&self, tier: Tier, seed: u64, st: &mut Stats) -> Vec<(Violation, J)> {
+        // streams longer than the 10 MiB default buffer through DltStreamReader::new
+        let n = match tier {
+            Tier::Quick => 2,
+            Tier::Thorough => 48,
+        };
+        let (s2, fails) = run_batch(n, |i, st| {
+            let case = crate::scen_read::big_stream_case("C08", seed, i, true);
+            let ex = crate::scen_poll::execute(&case, st);
+            st.inc("big_streams_default_ctor");
+            st.add("big_stream_bytes", case.medium.len() as u64);
+            st.distinct.insert(ex.key);
+            st.nontrivial.insert(ex.key);
+            RunResult { violations: ex.violations, hist: ex.hist }
+        });
+        st.merge(s2);
+        let mut out = vec![];
+        for (i, viols) in fails.into_iter().take(2) {
+            let case = crate::scen_read::big_stream_case("C08", seed, i, true);
+            let mut tmp = Stats::default();
+            let ex = crate::scen_poll::execute(&case, &mut tmp);
+            let c = crate::scen_poll::materialise(&case, &ex);
+            for v in viols {
+                out.push((v, c.to_json()));
+            }
+        }
+        out
+    }
     fn evidence(&self, tier: Tier, seed: u64) -> Evidence {
         let mut e = ev_base(
             "C08",
@@ -148,7 +208,7 @@ impl Scenario for C08 {
             "no ErrorKind::Interrupted: C08 quantifies over Pending / Ready(k) only and futures' read_exact does not retry it".into(),
             "the reference is the real blocking reader (C07 decides that one separately)".into(),
         ];
-        e.harness_probes = vec!["runs_with_pending", "exec_spurious_polls", "exec_double_wakes", "runs_multi_task", "source_early_eof", "exec_wake_events"];
+        e.harness_probes = vec!["runs_with_pending", "exec_spurious_polls", "exec_double_wakes", "runs_multi_task", "source_early_eof", "exec_wake_events", "big_streams_default_ctor"];
         e.crate_probes = vec!["records_expected"];
         e.step_keys = vec!["source_calls", "exec_steps"];
         e
